@@ -495,15 +495,19 @@ def value_parse_datetime(text):
     :rtype: datetime.datetime or None
     """
 
-    m_date = _R_DATE.match(text)
-    if m_date is not None:
-        year = int(m_date.group('year'))
-        month = int(m_date.group('month'))
-        day = int(m_date.group('day'))
-        return datetime.datetime(year, month, day)
-    elif _R_DATETIME.match(text):
-        result = datetime.datetime.fromisoformat(_R_DATETIME_ZULU.sub('+00:00', text)).astimezone().replace(tzinfo=None)
-        return result.replace(microsecond=(result.microsecond // 1000) * 1000)
+    try:
+        m_date = _R_DATE.match(text)
+        if m_date is not None:
+            year = int(m_date.group('year'))
+            month = int(m_date.group('month'))
+            day = int(m_date.group('day'))
+            return datetime.datetime(year, month, day)
+        elif _R_DATETIME.match(text):
+            result = datetime.datetime.fromisoformat(_R_DATETIME_ZULU.sub('+00:00', text)).astimezone().replace(tzinfo=None)
+            return result.replace(microsecond=(result.microsecond // 1000) * 1000)
+    except (ValueError, OverflowError):
+        # Well-formed text with an out-of-range field value (e.g. "2024-02-30")
+        pass
 
     return None
 
